@@ -15,11 +15,12 @@ type Knobs struct {
 	FieldCap   int // capacity of fresh J2TStateMachine.FieldCache (-1 = default)
 	ReqsCap    int // capacity of fresh J2TStateMachine.ReqsCache  (-1 = default)
 	BitmapOnes bool
+	PBBufCap   int // capacity of a fresh proto/binary write buffer (-1 = default)
 }
 
-var knobs = Knobs{KeyCap: -1, FieldCap: -1, ReqsCap: -1}
+var knobs = Knobs{KeyCap: -1, FieldCap: -1, ReqsCap: -1, PBBufCap: -1}
 
-func resetKnobs() { knobs = Knobs{KeyCap: -1, FieldCap: -1, ReqsCap: -1} }
+func resetKnobs() { knobs = Knobs{KeyCap: -1, FieldCap: -1, ReqsCap: -1, PBBufCap: -1} }
 
 const poisonByte = 0xDB
 
